@@ -28,6 +28,13 @@ int __real_pthread_mutex_lock(pthread_mutex_t *);
 int __real_pthread_mutex_trylock(pthread_mutex_t *);
 int __real_pthread_mutex_unlock(pthread_mutex_t *);
 int __real_pthread_cond_init(pthread_cond_t *, const pthread_condattr_t *);
+int __real_pthread_rwlock_init(pthread_rwlock_t *, const pthread_rwlockattr_t *);
+int __real_pthread_rwlock_destroy(pthread_rwlock_t *);
+int __real_pthread_rwlock_rdlock(pthread_rwlock_t *);
+int __real_pthread_rwlock_wrlock(pthread_rwlock_t *);
+int __real_pthread_rwlock_tryrdlock(pthread_rwlock_t *);
+int __real_pthread_rwlock_trywrlock(pthread_rwlock_t *);
+int __real_pthread_rwlock_unlock(pthread_rwlock_t *);
 int __real_pthread_cond_destroy(pthread_cond_t *);
 int __real_pthread_cond_wait(pthread_cond_t *, pthread_mutex_t *);
 int __real_pthread_cond_timedwait(pthread_cond_t *, pthread_mutex_t *, const struct timespec *);
@@ -81,15 +88,24 @@ static void vs_baton_wait(vs_baton_t *b) {
 #endif
 
 enum { VOP_NONE, VOP_START, VOP_LOCK, VOP_TRYLOCK, VOP_UNLOCK, VOP_CWAIT, VOP_REACQ, VOP_SIGNAL, VOP_BROADCAST,
-       VOP_CREATE, VOP_JOIN, VOP_ATOMIC, VOP_POINT, VOP_WOKEN, VOP_FINISH };
+       VOP_CREATE, VOP_JOIN, VOP_ATOMIC, VOP_POINT, VOP_WOKEN, VOP_FINISH,
+       VOP_RDLOCK, VOP_WRLOCK, VOP_TRYRD, VOP_TRYWR, VOP_RWUNLOCK };
 static const char *vs_opname[] = {"none", "start", "lock", "trylock", "unlock", "cwait", "reacq", "signal", "broadcast",
-                                  "create", "join", "atomic", "point", "woken", "finish"};
+                                  "create", "join", "atomic", "point", "woken", "finish",
+                                  "rdlock", "wrlock", "tryrd", "trywr", "rwunlock"};
 enum { VST_UNUSED, VST_READY, VST_BLOCKED, VST_EXITED };
 
 #define VS_MAX_OBJ 512
 struct vs_mutex {
     pthread_mutex_t *addr;
     int owner; /* -1 free */
+};
+/* readers-writer lock: one writer or any number of readers (a thread may hold several read locks) */
+struct vs_rw {
+    pthread_rwlock_t *addr;
+    int writer; /* -1 none */
+    int nread[VS_MAX_THREADS];
+    int readers;
 };
 struct vs_cond {
     pthread_cond_t *addr;
@@ -100,6 +116,7 @@ struct vs_thread {
     int id, state, op, target, result;
     struct vs_mutex *m;
     struct vs_cond *c;
+    struct vs_rw *rw;
     bool timed;
     uint64_t deadline;
     vs_baton_t sem;
@@ -115,6 +132,9 @@ static struct vs_mutex vs_M[VS_MAX_OBJ];
 static int vs_nm;
 static struct vs_cond vs_C[VS_MAX_OBJ];
 static int vs_nc;
+#define VS_MAX_RW 32
+static struct vs_rw vs_RW[VS_MAX_RW];
+static int vs_nrw;
 static __thread struct vs_thread *vs_me;
 static volatile bool vs_is_active;
 static uint64_t vs_clock = 1000000000000ull; /* virtual ns; starts at 1000 s */
@@ -348,6 +368,10 @@ static bool vs_enabled(struct vs_thread *t) {
         case VOP_LOCK:
         case VOP_REACQ:
             return t->m->owner < 0;
+        case VOP_RDLOCK:
+            return t->rw->writer < 0;
+        case VOP_WRLOCK:
+            return t->rw->writer < 0 && t->rw->readers == 0;
         case VOP_JOIN:
             return vs_T[t->target].state == VST_EXITED;
         case VOP_FINISH:
@@ -418,6 +442,43 @@ static void vs_apply(struct vs_thread *t) {
                 vs_anomalies++;
             }
             t->m->owner = -1;
+            break;
+        case VOP_RDLOCK:
+            t->rw->nread[t->id]++;
+            t->rw->readers++;
+            t->result = 0;
+            break;
+        case VOP_WRLOCK:
+            t->rw->writer = t->id;
+            t->result = 0;
+            break;
+        case VOP_TRYRD:
+            if (t->rw->writer < 0) {
+                t->rw->nread[t->id]++;
+                t->rw->readers++;
+                t->result = 0;
+            } else {
+                t->result = EBUSY;
+            }
+            break;
+        case VOP_TRYWR:
+            if (t->rw->writer < 0 && t->rw->readers == 0) {
+                t->rw->writer = t->id;
+                t->result = 0;
+            } else {
+                t->result = EBUSY;
+            }
+            break;
+        case VOP_RWUNLOCK:
+            if (t->rw->writer == t->id) {
+                t->rw->writer = -1;
+            } else if (t->rw->nread[t->id] > 0) {
+                t->rw->nread[t->id]--;
+                t->rw->readers--;
+            } else {
+                vs_anomalies++; /* unlock by a thread that holds nothing */
+            }
+            t->result = 0;
             break;
         case VOP_SIGNAL:
             if (t->c->nw > 0) {
@@ -595,6 +656,97 @@ int __wrap_pthread_mutex_unlock(pthread_mutex_t *m) {
     vs_yield(VOP_UNLOCK, vs_mutex_of(m), NULL, 0);
     return 0;
 }
+/* ---- readers-writer locks (aws_rw_lock) */
+static struct vs_rw *vs_rw_of(pthread_rwlock_t *a) {
+    int freeslot = -1;
+    for (int i = 0; i < vs_nrw; ++i) {
+        if (vs_RW[i].addr == a) {
+            return &vs_RW[i];
+        }
+        if (vs_RW[i].addr == NULL && freeslot < 0) {
+            freeslot = i;
+        }
+    }
+    if (freeslot < 0) {
+        if (vs_nrw >= VS_MAX_RW) {
+            fprintf(stderr, "vsched: too many rw locks\n");
+            abort();
+        }
+        freeslot = vs_nrw++;
+    }
+    memset(&vs_RW[freeslot], 0, sizeof(vs_RW[freeslot]));
+    vs_RW[freeslot].addr = a;
+    vs_RW[freeslot].writer = -1;
+    return &vs_RW[freeslot];
+}
+static int vs_rw_op(int op, pthread_rwlock_t *l) {
+    vs_me->rw = vs_rw_of(l);
+    vs_yield(op, NULL, NULL, 0);
+    return vs_me->result;
+}
+int __wrap_pthread_rwlock_init(pthread_rwlock_t *l, const pthread_rwlockattr_t *a) {
+    int rc = __real_pthread_rwlock_init(l, a);
+    if (vs_active()) {
+        struct vs_rw *rw = vs_rw_of(l);
+        memset(rw->nread, 0, sizeof(rw->nread));
+        rw->readers = 0;
+        rw->writer = -1;
+    }
+    return rc;
+}
+int __wrap_pthread_rwlock_destroy(pthread_rwlock_t *l) {
+    if (vs_active()) {
+        struct vs_rw *rw = vs_rw_of(l);
+        if (rw->writer >= 0 || rw->readers > 0) {
+            vs_anomalies++;
+        }
+        rw->addr = NULL;
+    }
+    return __real_pthread_rwlock_destroy(l);
+}
+int __wrap_pthread_rwlock_rdlock(pthread_rwlock_t *l) {
+    if (!vs_active()) {
+        return __real_pthread_rwlock_rdlock(l);
+    }
+    int rc = vs_rw_op(VOP_RDLOCK, l);
+    VS_TSAN_ACQUIRE(l);
+    return rc;
+}
+int __wrap_pthread_rwlock_wrlock(pthread_rwlock_t *l) {
+    if (!vs_active()) {
+        return __real_pthread_rwlock_wrlock(l);
+    }
+    int rc = vs_rw_op(VOP_WRLOCK, l);
+    VS_TSAN_ACQUIRE(l);
+    return rc;
+}
+int __wrap_pthread_rwlock_tryrdlock(pthread_rwlock_t *l) {
+    if (!vs_active()) {
+        return __real_pthread_rwlock_tryrdlock(l);
+    }
+    int rc = vs_rw_op(VOP_TRYRD, l);
+    if (rc == 0) {
+        VS_TSAN_ACQUIRE(l);
+    }
+    return rc;
+}
+int __wrap_pthread_rwlock_trywrlock(pthread_rwlock_t *l) {
+    if (!vs_active()) {
+        return __real_pthread_rwlock_trywrlock(l);
+    }
+    int rc = vs_rw_op(VOP_TRYWR, l);
+    if (rc == 0) {
+        VS_TSAN_ACQUIRE(l);
+    }
+    return rc;
+}
+int __wrap_pthread_rwlock_unlock(pthread_rwlock_t *l) {
+    if (!vs_active()) {
+        return __real_pthread_rwlock_unlock(l);
+    }
+    VS_TSAN_RELEASE(l);
+    return vs_rw_op(VOP_RWUNLOCK, l);
+}
 int __wrap_pthread_cond_init(pthread_cond_t *c, const pthread_condattr_t *a) {
     int rc = __real_pthread_cond_init(c, a);
     if (vs_active()) {
@@ -755,6 +907,9 @@ int __wrap_posix_memalign(void **out, size_t align, size_t size) {
     }
     return rc;
 }
+static void vs_fatal_event(const char *name);
+static void *vs_lent[VS_MAXPAGES]; /* retired pages currently lent to the harness allocator for a large block */
+static int vs_nlent;
 void __wrap_free(void *p) {
     if (p && vs_page_recycle) {
         for (int i = 0; i < vs_npages; ++i) {
@@ -762,9 +917,23 @@ void __wrap_free(void *p) {
                 vs_pages[i] = vs_pages[--vs_npages];
                 if (vs_nretired < VS_MAXPAGES) {
                     vs_retired[vs_nretired++] = p;
-                    return; /* retired, not freed */
+                    /* retired, not freed: poisoned like freed memory, so that a later access by the library is still
+                     * a sanitizer report (the un-instrumented tag probe of s_sba_free may look at it, as with malloc) */
+                    __asan_poison_memory_region(p, 4096);
+                    return;
                 }
                 break;
+            }
+        }
+        /* a page that was already given back is given back again (what malloc calls a double free) */
+        for (int i = 0; i < vs_nretired; ++i) {
+            if (vs_retired[i] == p) {
+                vs_fatal_event("PageFreedTwice");
+            }
+        }
+        for (int i = 0; i < vs_nlent; ++i) {
+            if (vs_lent[i] == p) {
+                vs_fatal_event("PageFreedTwice");
             }
         }
     }
@@ -772,16 +941,31 @@ void __wrap_free(void *p) {
 }
 /* called by the harness allocator: a block of n bytes carved from the inside of a retired page, or NULL */
 static void *vs_take_from_retired_page(size_t n) {
-    if (!vs_page_recycle || vs_nretired == 0 || n + 32 > 4096) {
+    if (!vs_page_recycle || vs_nretired == 0 || n + 32 > 4096 || vs_nlent >= VS_MAXPAGES) {
         return NULL;
     }
-    return (uint8_t *)vs_retired[--vs_nretired] + 32;
+    uint8_t *page = vs_retired[--vs_nretired];
+    vs_lent[vs_nlent++] = page;
+    __asan_unpoison_memory_region(page + 32, n);
+    return page + 32;
 }
 static bool vs_give_back_to_retired(void *p) {
     if (!vs_page_recycle || ((uintptr_t)p & 4095) != 32) {
         return false;
     }
     void *page = (uint8_t *)p - 32;
+    bool lent = false;
+    for (int i = 0; i < vs_nlent; ++i) {
+        if (vs_lent[i] == page) {
+            vs_lent[i] = vs_lent[--vs_nlent];
+            lent = true;
+            break;
+        }
+    }
+    if (!lent) {
+        return false; /* not one of ours: an ordinary block that happens to sit 32 bytes into a page */
+    }
+    __asan_poison_memory_region(page, 4096);
     if (vs_nretired < VS_MAXPAGES) {
         vs_retired[vs_nretired++] = page;
     }
